@@ -14,6 +14,16 @@ MAINT = "model::config::MaintenanceConfig"
 
 def rules(ctx):
     objective.indicators(ctx, "R1")
+    # the reported figures are those of the instance that was sent: a departure takes distance and duration from its own route segment
+    # (loader rules shared with C17), and every rotation cycle the violation was computed from is in the answer (shared with C03)
+    from .C17 import loader_subset as _ls
+    _ls(ctx, ["create_service_trip."])
+    from . import C03 as _c03
+    _b = len(ctx.obligations)
+    _c03.completeness(ctx)
+    ctx.obligations[_b:] = [o_ for o_ in ctx.obligations[_b:] if "rotation-cycle" in o_.id]
+    for o_ in ctx.obligations[_b:]:
+        o_.id = o_.id.replace("C04/R2.", "C04/R5.json.")
     # R2: evaluation of the final schedule feeds the output (both pipelines)
     for key, tag in (("server::solve_instance", "server"), ("internal::run", "internal")):
         o, fd = ctx.require_fn("R2.%s.objective-of-final-schedule" % tag, "T4", key,
